@@ -134,12 +134,16 @@ func (t *Directive) hasDirLoop(hits map[string]bool) []string {
 			if hits[name] {
 				return []string{t.Name() + "." + a.Name(), name}
 			}
+			// Only the directives on the way from the directive being
+			// validated to this one count, a directive that is used twice,
+			// on two arguments or along two branches, is not a loop.
 			hits[name] = true
 			if d2, _ := du.Directive.(*Directive); d2 != nil {
 				if path := d2.hasDirLoop(hits); 0 < len(path) {
 					return append([]string{t.Name() + "." + a.Name()}, path...)
 				}
 			}
+			delete(hits, name)
 		}
 	}
 	return nil
